@@ -9,7 +9,7 @@
    write-back replaces one column of a frame re-indexed to 0..n-1 and restores the index (checked on the real frames). *)
 From Coq Require Import String List Arith Bool ZArith.
 Import ListNotations.
-From NP Require Import Base Values Arrow Frame Proofs_Pack Proofs_Regroup.
+From NP Require Import Base Values Arrow Abs Kernels Logical ExtArray Codec Steps Frame Bridge Proofs_Pack Proofs_Regroup Proofs_Bridge.
 
 Theorem C07_query_nested : forall rows keep,
   m_query_nested rows (map keep (m_flat rows)) = Ok (spec_filter_rows keep rows).
@@ -37,6 +37,16 @@ Theorem C07_repack_is_lossless : forall t, is_mono_inc (map fst t) = true ->
             /\ Forall (fun kg : Z * list record => snd kg <> []) g.
 Proof. exact pack_sorted_ok. Qed.
 Print Assumptions C07_repack_is_lossless.
+
+(* the link to the column level: the rows the mechanism starts from are the record-major reading of the logical column abs p,
+   whose flat fields, per-row lengths and ordinal index are exactly the C03 views that the library computes on ANY layout *)
+Theorem C07_starts_from_the_C03_views : forall p, inv_b p = true ->
+  let L := abs p in
+  row_lens (nrows_of L) = lrow_lengths L /\
+  m_list_index (nrows_of L) = map Z.of_nat (spec_list_index L) /\
+  (forall k, k < length (lcols L) -> flat_field k (nrows_of L) = nth k (spec_flat L) []).
+Proof. exact frame_views_are_c03_views. Qed.
+Print Assumptions C07_starts_from_the_C03_views.
 
 Example C07_nonvacuous :
   m_query_nested [Some [[VInt 1]; [VInt 5]; [VInt 2]]; None; Some []; Some [[VInt 9]]; Some [[VInt 0]]]
